@@ -305,6 +305,9 @@ func (ex *Exec) visitInstr(fr *frame, instr ssa.Instruction) continuation {
 		fr.env[instr] = ex.binop(instr.Op, instr.X.Type(), fr.get(instr.X), fr.get(instr.Y))
 	case *ssa.Call:
 		fn, args := ex.prepareCall(fr, &instr.Call)
+		if _, isBuiltin := fn.(*ssa.Builtin); isBuiltin && ex.raceLog != nil {
+			ex.curInstrWhere = where(instr)
+		}
 		fr.env[instr] = ex.call(fr.th, fr, fn, args)
 	case *ssa.ChangeInterface:
 		fr.env[instr] = fr.get(instr.X)
